@@ -3,6 +3,7 @@ C19 — Printed forms are canonical, parse back, and sort in chronological order
 -/
 import Proofs.FmtOrder
 import Proofs.CivilArith
+import Proofs.RenderSpec
 namespace Props.C19
 open Model
 
@@ -20,6 +21,14 @@ theorem lex_is_field_order_ymd (s o : Solar) (hs : InWidth s) (ho : InWidth o) :
 /-- the width bound is necessary: a five-digit year breaks the order -/
 theorem width_bound_necessary : cmpChars (Solar.toYmd ⟨10000, 1, 1, 0, 0, 0⟩) (Solar.toYmd ⟨9999, 12, 31, 0, 0, 0⟩) = .lt :=
   Model.width_bound_necessary
+
+/-- Chinese rendering of lunar / Taoist / Buddhist dates parses back; distinct dates never print alike -/
+theorem chinese_parse_back (y m d : Int) (hy : 0 ≤ y) (hm : (1 ≤ m ∧ m ≤ 12) ∨ (-12 ≤ m ∧ m ≤ -1)) (hd : 1 ≤ d ∧ d ≤ 30) :
+    parseLunarCp (lunarCp y m d) = some (y, m, d) := parse_lunarCp y m d hy hm hd
+theorem chinese_injective (y m d y' m' d' : Int) (hy : 0 ≤ y) (hy' : 0 ≤ y')
+    (hm : (1 ≤ m ∧ m ≤ 12) ∨ (-12 ≤ m ∧ m ≤ -1)) (hm' : (1 ≤ m' ∧ m' ≤ 12) ∨ (-12 ≤ m' ∧ m' ≤ -1))
+    (hd : 1 ≤ d ∧ d ≤ 30) (hd' : 1 ≤ d' ∧ d' ≤ 30) (h : lunarCp y m d = lunarCp y' m' d') : (y, m, d) = (y', m', d') :=
+  lunarCp_inj y m d y' m' d' hy hy' hm hm' hd hd' h
 
 example : InWidth ⟨2024, 2, 29, 23, 59, 59⟩ := by unfold InWidth; decide
 
